@@ -3,6 +3,7 @@ from __future__ import annotations
 
 from vlib import diff, lib
 from vlib.gen import queries as Q
+from vlib.gen import values as V
 from vlib.hyp import drive, rng
 from vlib.ref import abnf, normpath, typecheck
 from vlib.ref import evaluate as ev
@@ -184,6 +185,42 @@ def force_grouping(g, r, fdepth=1):
     return ["and", [["not", ["paren", cmp1]], ["not", ["test", g.filter_query(fdepth)]], ["paren", ["or", [a, b]]]]]
 
 
+def doc_for_query(r, asts):
+    """A document built from the names and literals of the given ASTs (and values next to them)."""
+    names, lits = [], []
+    for ast in asts:
+        for x in Q.walk(ast):
+            if x and x[0] == "name":
+                names.append(x[1])
+            elif x and x[0] == "lit":
+                lits.append(x[1])
+    names = list(dict.fromkeys(names)) or ["a"]
+    pool = list(lits)
+    nums = [v for v in lits if isinstance(v, (int, float)) and not isinstance(v, bool)]
+    for v in nums:
+        if abs(v) < 1e300:
+            pool += [v + 1, v - 1, v + 0.5, v - 0.25, int(v) if v == v and abs(v) < 2**62 else v, float(v)]
+    for i in range(len(nums) - 1):
+        pool.append((nums[i] + nums[i + 1]) / 2)
+    for v in lits:
+        if isinstance(v, str):
+            pool += [v + "a", v[:-1], v.upper()]
+    pool += [None, True, False, 0, "", [], {}, [1], {"a": 1}]
+
+    def val(depth):
+        k = r.random()
+        if depth <= 0 or k < 0.55:
+            return V.fresh(r.choice(pool))
+        if k < 0.8:
+            return {n: val(depth - 1) for n in r.sample(names, min(len(names), r.randrange(1, 4)))}
+        return [val(depth - 1) for _ in range(r.randrange(0, 4))]
+
+    rows = [val(2) for _ in range(r.randrange(2, 7))]
+    if r.random() < 0.3:
+        return {n: rows[i % len(rows)] for i, n in enumerate(names[:5])}
+    return rows
+
+
 def run_shard(spec, shard):
     tier = spec["tier"]
 
@@ -239,8 +276,10 @@ def run_shard(spec, shard):
             from vlib.runner import HarnessError
             raise HarnessError(f"generator/parser disagreement on {text!r}: {res!r} / {typecheck.check(plain, registry)}")
         docs = [doc]
-        for _ in range(5 if tier == "quick" else 11):
+        for _ in range(3 if tier == "quick" else 7):
             docs.append(diff.make_doc(r, tier, names=names, falsy_bias=0.25))
+        for _ in range(3 if tier == "quick" else 5):
+            docs.append(doc_for_query(r, [plain]))
         case = {"q": text, "docs": docs}
         if use_probes:
             case["registry"] = "probes"
@@ -257,7 +296,9 @@ def run_shard(spec, shard):
                 r1 = None
             if r1 is not None and r1.verdict == abnf.VALID and norm(r1.ast) != norm(plain):
                 shard.notes["normalised-ast-differs"] += 1
-                for _ in range(40):
+                for _ in range(30):
+                    docs.append(doc_for_query(r, [plain, r1.ast]))
+                for _ in range(10):
                     docs.append(diff.make_doc(r, tier, names=names, falsy_bias=0.4))
         shard.case(key=text, nontrivial=nt, classes=set(feats) | ({"probe-registry"} if use_probes else set())
                    | ({"compound-paren"} if compound_paren else set()), sample={"q": text, "str": str(cq) if st == "ok" else None})
